@@ -53,10 +53,30 @@ def _preamble(fnode):
     return elem, env, flipname, fields
 
 
-def _flip_fact(fs, flipname, elem, fields):
+def _flip_fact(fs, flipname, elem, fields, val=None):
+    """value of the flip flag a path has decided; a tested name that is a copy or a negation of the flag (`far = not flipped`)
+    decides it as well"""
+    targets = (flipname, "%s.%s" % (elem, fields.get("flip")), "self._element.%s" % fields.get("flip"))
     for a in fs:
-        if a[0] == "truthy" and a[1] in (flipname, "%s.%s" % (elem, fields.get("flip")), "self._element.%s" % fields.get("flip")):
+        if a[0] != "truthy":
+            continue
+        if a[1] in targets:
             return a[2]
+        if val:
+            try:
+                e = ast.parse(a[1], mode="eval").body
+            except SyntaxError:
+                continue
+            pol = a[2]
+            for _ in range(6):
+                if isinstance(e, ast.UnaryOp) and isinstance(e.op, ast.Not):
+                    e, pol = e.operand, not pol
+                elif isinstance(e, ast.Name) and e.id in val and e.id != flipname:
+                    e = val[e.id]
+                else:
+                    break
+            if (dotted(e) or "") in targets:
+                return pol
     return None
 
 
@@ -68,10 +88,13 @@ def _getter_formulas(prog, cls, name):
     g = cls.methods.get(name)
     if g is None:
         raise NotDecided("getter %s missing" % name)
-    d = desugar(g.node)
+    from sa.inline import expand
+
+    d = desugar(expand(prog, g, local_only=True))   # a shared end-point helper is read in place
     elem, env0, flipname, fields = _preamble(d)
     if flipname is None:
         raise NotDecided("getter %s does not read the flip flag" % name)
+    val = P_.value_aliases(d)
     out = {}
     for pth in P_.enum_paths(d.body):
         if pth.end != "return":
@@ -84,7 +107,7 @@ def _getter_formulas(prog, cls, name):
                     env[ev[1].targets[0].id] = of_expr(ev[1].value, env, ("Emu", "int", "Length"))
                 except Exception:
                     pass
-        fl = _flip_fact(P_.facts(pth), flipname, elem, fields)
+        fl = _flip_fact(P_.facts(pth), flipname, elem, fields, val)
         if fl is None:
             raise NotDecided("getter %s: a path does not decide the flip flag" % name)
         out[fl] = of_expr(pth.end_node.value, env, ("Emu", "int", "Length"))
@@ -148,6 +171,19 @@ def analyse_setter(prog, cls, name):
                         changed = True
         return p
 
+    def flag_copy(e, boolenv):
+        pol = True
+        for _ in range(6):
+            if isinstance(e, ast.UnaryOp) and isinstance(e.op, ast.Not):
+                e, pol = e.operand, not pol
+            else:
+                break
+        if isinstance(e, ast.Name) and e.id in boolenv:
+            return boolenv[e.id] == pol
+        if dotted(e) == flipname:
+            return pol
+        return None
+
     for pth in P_.enum_paths(d.body):
         if pth.end == "raise":
             continue
@@ -155,6 +191,7 @@ def analyse_setter(prog, cls, name):
         state = {"pos": Poly.sym("pos"), "ext": Poly.sym("ext"), "flip": None}
         facts, absmap, conds = [], {}, []
         flip0 = None
+        boolenv = {}
         for evn in pth.events:
             if evn[0] == "cond":
                 t, outcome = evn[1], evn[2]
@@ -162,6 +199,9 @@ def analyse_setter(prog, cls, name):
                 core, pol = t, outcome
                 while isinstance(core, ast.UnaryOp) and isinstance(core.op, ast.Not):
                     core, pol = core.operand, not pol
+                if isinstance(core, ast.Name) and core.id in boolenv:
+                    pol = pol if boolenv[core.id] else not pol
+                    core = ast.Name(id=flipname, ctx=ast.Load())
                 if dotted(core) == flipname or dotted(core) in {"%s.%s" % (e_, fields["flip"]) for e_ in elems}:
                     if flip0 is None and state["flip"] is None:
                         flip0 = pol
@@ -184,12 +224,17 @@ def analyse_setter(prog, cls, name):
                 if isinstance(t, ast.Name):
                     if t.id in elems or t.id == flipname or t.id in env0:
                         continue
+                    fv = flag_copy(s.value, boolenv)
+                    if fv is not None:
+                        boolenv[t.id] = fv   # a copy (True) or the negation (False) of the flip flag read at entry
+                        continue
                     env[t.id] = ev(s.value, env, absmap)
                 elif isinstance(t, ast.Attribute) and dotted(t.value) in elems:
                     if t.attr == fields["flip"]:
                         v = s.value.value if isinstance(s.value, ast.Constant) else None
-                        if isinstance(s.value, ast.UnaryOp) and isinstance(s.value.op, ast.Not) and dotted(s.value.operand) == flipname and flip0 is not None:
-                            v = not flip0   # `flip = not <initial flip>` on a path that has decided the initial value
+                        fc = flag_copy(s.value, boolenv)
+                        if v is None and fc is not None and flip0 is not None:
+                            v = flip0 if fc else not flip0   # `flip = not <initial flip>` on a path that has decided the initial value
                         if not isinstance(v, bool):
                             raise NotDecided("flip assigned a non-constant")
                         state["flip"] = v
